@@ -657,3 +657,32 @@ Proof.
     - destruct (step P s0 a) as [s1|] eqn:E; [|discriminate]. eapply IH; [eapply step_lock_none; eauto|exact H]. }
   exact (G l init eq_refl H).
 Qed.
+
+(* ---- net/rpc Dispense on top of the broker (rpc_client.go Dispense / rpc_server.go dispenseServer.Dispense): the client
+   allocates an id, the server creates the implementation for that request and starts a goroutine that accepts on the id
+   and serves the implementation on the accepted stream; the client dials the id.  A dispense is the id with the two
+   broker threads it gives rise to; the server object of a dispense is bound to its accepting thread. *)
+Record dispense := { d_id : id; d_acc : tid; d_dial : tid }.
+
+Lemma nodup_map_inj {A B} (f : A -> B) (l : list A) x y :
+  NoDup (map f l) -> In x l -> In y l -> f x = f y -> x = y.
+Proof.
+  induction l as [|a l IH]; intros Hnd Hx Hy Hf; [destruct Hx|].
+  cbn in Hnd. inversion Hnd as [|? ? Hna Hnd']; subst.
+  destruct Hx as [->|Hx], Hy as [->|Hy]; auto.
+  - exfalso. apply Hna. rewrite Hf. apply in_map. exact Hy.
+  - exfalso. apply Hna. rewrite <- Hf. apply in_map. exact Hx.
+Qed.
+
+(* whatever the interleaving of any number of dispenses (and of anything else on the broker): the stream the client of
+   dispense j obtained is served by the acceptor -- hence by the server object -- of dispense j and of no other *)
+Theorem dispense_reaches_own_server P s (ds : list dispense) j k i :
+  reachable P s -> NoDup (map d_id ds) -> In j ds -> In k ds ->
+  tlookup (thr s) (d_dial j) = Some (Done (DialOk (d_id j) i)) ->
+  tlookup (thr s) (d_acc k) = Some (Done (AccOk (d_id k) i)) ->
+  j = k.
+Proof.
+  intros R Hnd Hj Hk Hd Ha.
+  destruct (C06_routing P s (d_acc k) (d_dial j) (d_id k) (d_id j) i R Ha Hd) as [E _].
+  symmetry. exact (nodup_map_inj d_id ds k j Hnd Hk Hj E).
+Qed.
